@@ -615,7 +615,97 @@ func extractInproc(p *pkgs, out string) {
 	ord("unaryFrameOrder", frameKindsWritten(inv))
 	l.printf("/-- frame kinds written by inProcessServerStream.finish, in source order -/\n")
 	ord("finishFrameOrder", frameKindsWritten(fin))
+	// placement of the message copies (C06): every send clones before the frame is written, every
+	// receive copies out of the frame
+	_, cSend := p.methodDecl(mod+"/inprocgrpc", "inProcessClientStream", "SendMsg")
+	_, sSend := p.methodDecl(mod+"/inprocgrpc", "inProcessServerStream", "SendMsg")
+	_, sRecv := p.methodDecl(mod+"/inprocgrpc", "inProcessServerStream", "RecvMsg")
+	_, cRecv := p.methodDecl(mod+"/inprocgrpc", "inProcessClientStream", "recvMsgLocked")
+	if cSend == nil || sSend == nil || sRecv == nil || cRecv == nil {
+		fail("inprocgrpc/in_process.go", "placement", "stream SendMsg/RecvMsg methods not found")
+	} else {
+		l.printf("/-- SendMsg: the data frame carries the result of cloner.Clone (called before the frame is written) -/\n")
+		l.printf("def clientSendClones : Bool := %v\n", cloneFeedsFrame(cSend))
+		l.printf("def serverSendClones : Bool := %v\n", cloneFeedsFrame(sSend))
+		l.printf("/-- RecvMsg hands out frame data only through cloner.Copy: number of Copy calls / of other uses of a frame's data -/\n")
+		cc, other := copyUses(sRecv)
+		l.printf("def serverRecvCopyCalls : Nat := %d\ndef serverRecvOtherDataUses : Nat := %d\n", cc, other)
+		cc, other = copyUses(cRecv)
+		l.printf("def clientRecvCopyCalls : Nat := %d\ndef clientRecvOtherDataUses : Nat := %d\n", cc, other)
+		cc, other = copyUses(inv)
+		l.printf("/-- Invoke: request copied by cloner.Copy(out, req) in the decode closure, response by cloner.Copy(resp, r.data) -/\n")
+		l.printf("def unaryCopyCalls : Nat := %d\ndef unaryOtherDataUses : Nat := %d\n", cc, other)
+	}
 	must(l.finish(out))
+}
+
+// cloneFeedsFrame: the body assigns `x, err := <recv>.cloner.Clone(x)` and later builds frame{data: x}
+// inside the writeMessage call.
+func cloneFeedsFrame(fd *ast.FuncDecl) bool {
+	cloned := map[string]token.Pos{}
+	ok := false
+	ast.Inspect(fd, func(n ast.Node) bool {
+		switch x := n.(type) {
+		case *ast.AssignStmt:
+			if len(x.Rhs) == 1 && len(x.Lhs) >= 1 {
+				if call, isCall := x.Rhs[0].(*ast.CallExpr); isCall {
+					if sel, isSel := call.Fun.(*ast.SelectorExpr); isSel && sel.Sel.Name == "Clone" {
+						if id, isID := x.Lhs[0].(*ast.Ident); isID {
+							cloned[id.Name] = x.Pos()
+						}
+					}
+				}
+			}
+		case *ast.CompositeLit:
+			if id, isID := x.Type.(*ast.Ident); isID && id.Name == "frame" {
+				for _, e := range x.Elts {
+					if kv, isKV := e.(*ast.KeyValueExpr); isKV {
+						if k, isK := kv.Key.(*ast.Ident); isK && k.Name == "data" {
+							if v, isV := kv.Value.(*ast.Ident); isV {
+								if pos, was := cloned[v.Name]; was && pos < x.Pos() {
+									ok = true
+								} else {
+									ok = false
+								}
+							}
+						}
+					}
+				}
+			}
+		}
+		return true
+	})
+	return ok
+}
+
+// copyUses counts calls `<x>.Copy(dst, <frame>.data)` / `cloner.Copy(out, req)` and every other read of
+// a `.data` field that is not a nil test, a kind() dispatch or an argument of Copy.
+func copyUses(fd *ast.FuncDecl) (copies, other int) {
+	inCopy := map[ast.Node]bool{}
+	ast.Inspect(fd, func(n ast.Node) bool {
+		if call, ok := n.(*ast.CallExpr); ok {
+			if sel, ok := call.Fun.(*ast.SelectorExpr); ok && sel.Sel.Name == "Copy" && len(call.Args) == 2 {
+				copies++
+				inCopy[call.Args[1]] = true
+			}
+		}
+		return true
+	})
+	ast.Inspect(fd, func(n ast.Node) bool {
+		switch x := n.(type) {
+		case *ast.BinaryExpr:
+			// `r.data != nil` is a test, not a use
+			if sel, ok := x.X.(*ast.SelectorExpr); ok && sel.Sel.Name == "data" {
+				inCopy[sel] = true
+			}
+		case *ast.SelectorExpr:
+			if x.Sel.Name == "data" && !inCopy[x] {
+				other++
+			}
+		}
+		return true
+	})
+	return
 }
 
 // ---------------------------------------------------------------------------
